@@ -195,6 +195,12 @@ func (s *scen) unstake(from string, t spenum.Provider, prov string, fee currency
 	return s.scCall(fmt.Sprintf("stake_pool_unlock(%s<-%s)", from, prov), from, "stake_pool_unlock", 0, nil, fee, static(spReq(t, s.actor(prov).ID)))
 }
 
+// unstakeOwnID: `from` unlocks from the blobber stake pool stored under its OWN client id (such a
+// node exists only if something saved a stake pool under a caller id instead of a provider id).
+func (s *scen) unstakeOwnID(from string) chainsim.Action {
+	return s.scCall(fmt.Sprintf("stake_pool_unlock(%s<-pool-under-own-id)", from), from, "stake_pool_unlock", 0, nil, 0, static(spReq(spenum.Blobber, s.actor(from).ID)))
+}
+
 func (s *scen) collect(from string, t spenum.Provider, prov string) chainsim.Action {
 	in := (&stakepool.CollectRewardRequest{ProviderId: s.actor(prov).ID, ProviderType: t}).Encode()
 	return s.scCall(fmt.Sprintf("collect_reward(%s,%s)", from, prov), from, "collect_reward", 0, nil, 0, static(json.RawMessage(in)))
